@@ -356,6 +356,19 @@ pub open spec fn log_after_many(log: Seq<Jm>, values: Seq<&TCBoxedVal>, expressi
 {
     if n == 0 { log } else { log_after(log_after_many(log, values, expression, (n - 1) as nat), values[n - 1].aux(), expression) }
 }
+/// Lemma (proved): the clauses N = 1 .. 6 of `infer_for_many`'s assumed contract are the unfolded definition
+proof fn lemma_many_unfolded(log: Seq<Jm>, v: Seq<&TCBoxedVal>, e: TypeExpression)
+    requires !(e is Equal), v.len() >= 6,
+    ensures
+        log_after_many(log, v, e, 1) == log.push((v[0].aux(), e)),
+        log_after_many(log, v, e, 2) == log.push((v[0].aux(), e)).push((v[1].aux(), e)),
+        log_after_many(log, v, e, 3) == log.push((v[0].aux(), e)).push((v[1].aux(), e)).push((v[2].aux(), e)),
+        log_after_many(log, v, e, 4) == log.push((v[0].aux(), e)).push((v[1].aux(), e)).push((v[2].aux(), e)).push((v[3].aux(), e)),
+        log_after_many(log, v, e, 5) == log.push((v[0].aux(), e)).push((v[1].aux(), e)).push((v[2].aux(), e)).push((v[3].aux(), e)).push((v[4].aux(), e)),
+        log_after_many(log, v, e, 6) == log.push((v[0].aux(), e)).push((v[1].aux(), e)).push((v[2].aux(), e)).push((v[3].aux(), e)).push((v[4].aux(), e)).push((v[5].aux(), e)),
+{
+    reveal_with_fuel(log_after_many, 8);
+}
 impl TypeCheckerState {
     // A-CALLEE: `infer(variable, expression)` (HashMap<_, HashSet<_>> bookkeeping; `impl Into` arguments
     // monomorphised). The stand-in of units packed_lift / arith_sites, EXTENDED to equalities (those units
@@ -372,7 +385,7 @@ impl TypeCheckerState {
     // A-CALLEE: `infer_for_many(values, expression)` (`array::from_fn` with a closure that pulls the values
     // from an iterator and calls `infer_for(value, expression.clone())` — outside Verus' subset). Assumed
     // EXACTLY as its body reads: one `infer_for` per value, in array order, with the same expression. The
-    // clauses for N = 2 and N = 3 are the unfolded definition (the only sizes the rules use).
+    // clauses for N = 1 .. 6 are the unfolded definition (the rules use 2 and 3; no node has more than 6 children).
     #[verifier::external_body]
     pub fn infer_for_many<const N: usize>(&mut self, values: [&TCBoxedVal; N], expression: TypeExpression) -> (r: [TypeVariable; N])
         requires
@@ -380,9 +393,12 @@ impl TypeCheckerState {
             !(expression is Equal),
         ensures
             inferred(final(self)) == log_after_many(inferred(old(self)), values@, expression, N as nat),
+            N == 1 ==> inferred(final(self)) == inferred(old(self)).push((values@[0].aux(), expression)),
             N == 2 ==> inferred(final(self)) == inferred(old(self)).push((values@[0].aux(), expression)).push((values@[1].aux(), expression)),
-            N == 3 ==> inferred(final(self)) == inferred(old(self)).push((values@[0].aux(), expression)).push((values@[1].aux(), expression))
-                .push((values@[2].aux(), expression)),
+            N == 3 ==> inferred(final(self)) == inferred(old(self)).push((values@[0].aux(), expression)).push((values@[1].aux(), expression)).push((values@[2].aux(), expression)),
+            N == 4 ==> inferred(final(self)) == inferred(old(self)).push((values@[0].aux(), expression)).push((values@[1].aux(), expression)).push((values@[2].aux(), expression)).push((values@[3].aux(), expression)),
+            N == 5 ==> inferred(final(self)) == inferred(old(self)).push((values@[0].aux(), expression)).push((values@[1].aux(), expression)).push((values@[2].aux(), expression)).push((values@[3].aux(), expression)).push((values@[4].aux(), expression)),
+            N == 6 ==> inferred(final(self)) == inferred(old(self)).push((values@[0].aux(), expression)).push((values@[1].aux(), expression)).push((values@[2].aux(), expression)).push((values@[3].aux(), expression)).push((values@[4].aux(), expression)).push((values@[5].aux(), expression)),
             forall|i: int| 0 <= i < N ==> (#[trigger] r@[i]) == values@[i].aux(),
             known(final(self)) == known(old(self)),
     { unimplemented!() }
@@ -1032,5 +1048,13 @@ let mut vx_i: usize = 0;
 //@end
 }
 
+//@dropped TypeCheckerState::infer (HashMap<TypeVariable, HashSet<TypeExpression>> bookkeeping): assumed callee, written from its body and doc comment — a non-equality is recorded for the variable, an equality for BOTH variables, a self-equality not at all; it panics on an unknown variable. That the variables of the value handed to a rule and of its sub-tree (three levels down: what DynamicArrayWriteRule reaches) ARE known is the trait-level precondition `registered` = the typing state's registration invariant (`register` registers the whole sub-tree), assumed, not proved here
+//@dropped TypeCheckerState::infer_for_many (array::from_fn + closure + iterator): assumed callee with the exact meaning of its body (one infer_for per array element, in order, same expression)
+//@dropped CallDataRule: `byte_size * BYTE_SIZE_BITS` overflows usize for a constant size >= 2^61 bytes (debug: panic "attempt to multiply with overflow"; release: wrapped width) and gives a width > 256 for any constant size > 32 (64 bytes -> Word<Bytes, 512>). Both reproduced through the public rule API on a hand-built `call_data(offset, const)`; NOT reachable from bytecode by reading: CALLDATALOAD builds size = 32, CALLDATACOPY folds its size and for a constant stores 32-byte call_data words, so a CallData node with another size has a size that does not fold to a constant, the folder is idempotent (it only folds all-constant operator nodes), and no lifting pass creates a constant below a CallData node. Stated as the precondition `call_data_sized` (tree invariant), not proved
+//@dropped SIGNEXTEND: the rule takes the numeric value of the node's `size` child as the result's width in BITS (its own test: 128 -> signed_word(Some(128))), the contract follows that in-file documentation; the EVM's operand is a BYTE INDEX b (width 8*(b+1)), and SignExtend::execute puts the EVM's byte index into `value` and the extended value into `size` (known finding D19, unit alu_ops) — so from bytecode the reported width is the extended VALUE when that is a constant <= 256: `6007 6000 0b 6000 55 00` (SIGNEXTEND(0, 7) stored to slot 0) is reported as Int { size: Some(7) }, `6010 6000 35 0b 6000 55 00` as Int { size: Some(16) }. Not a labelled obligation here (C12 only bounds the width by 256); reported
+//@dropped ExtCodeRule is under contract here but is NOT in `InferenceRules::default()` (src/tc/rule/mod.rs neither imports nor adds it): its documented judgements are never produced by the default pipeline (`6000 35 3b 6000 55 00`, EXTCODESIZE stored to slot 0, is typed Any where BALANCE gives UInt). InferenceRules::{new, add, default}, RulesItem::{new, deref} (TypeId, Box<dyn>, HashSet insert) are not extracted: WHICH rules are in the default set is not under contract
+//@dropped InferenceRules::infer: the HashSet iteration is an index loop over `rule_order`, an arbitrary fixed sequence (R-FOREACH); that the hash set yields every inserted rule exactly once is A-STD. "Stops at the first Err" is decided as: Ok iff no rule of the set fails on the value (a failing rule's error is returned at once — the `?` — and nothing is claimed about the log in that case beyond append-only); WHICH error is returned is not claimed
+//@dropped SymbolicValueData::constant_fold (CallDataRule): assumed callee, uninterpreted (determinism only); KnownWord -> usize: uninterpreted function of the word (any usize may come out); the tests of every file; derived Debug/Eq/Hash on the rule structs
+//@dropped the doc comments of create.rs and sha3.rs do not mention the CREATE2 salt (bytes32) and EXTCODEHASH (operand address, result bytes32): both are in the body and are taken over into the contract as they agree with the EVM; arithmetic_operations.rs, bit_shifts.rs, boolean_operations.rs, environment_opcodes.rs have no "equating" list — the contract follows their prose and per-arm comments
 } // verus!
 fn main() {}
